@@ -1,5 +1,6 @@
 import DhcpProofs.Lemmas.V6Fuel
 import DhcpProofs.Lemmas.LabelApi
+import DhcpProofs.Lemmas.V6Parse
 /-
   C02 — DHCPv6 encode→decode preserves messages, relay chains and every option
   type.  `encMsg`/`dec6` model `ToBytes`/`dhcpv6.FromBytes`; `WFMsg` is the
@@ -20,6 +21,14 @@ theorem C02_roundtrip (m : Msg6) (h : WFMsg m) : dec6 (encMsg m) = .ok m :=
 /-- **C02 (single options).** The same for `ParseOption` on one option's value. -/
 theorem C02_roundtrip_option (o : Opt6) (h : WFOpt o) : parseOption o.code (encOpt o) = .ok o :=
   parseOption_encOpt o h
+
+/-- **C02 (wire layout).** The emitted bytes are derivable in the declarative RFC
+8415 framing grammar (`Spec.PMsg`, no Lexer, no fuel) with `m` as their reading:
+header, then options tiling the remainder exactly, recursively through every
+container option. (The leaf value layouts are additionally compared with an
+independently written Go RFC decoder by oracle c02.) -/
+theorem C02_wire (m : Msg6) (h : WFMsg m) : Spec.PMsg (encMsg m) m :=
+  (dec6_iff _ _).mp (dec6_encMsg m h)
 
 /-- **C02 (any fuel).** The statement does not depend on the fuel the model's
 decoder is run with, once it covers the nesting depth. -/
